@@ -267,7 +267,7 @@ func c10(ctx *Ctx) {
 	allB := c10CasesB(ctx.Level)
 	var casesB, acceptOnly []SCase
 	for _, c := range allB {
-		if c.Axes["leaf"] == "self/allOf-items" || c.Axes["leaf"] == "two-cycle/allOf" {
+		if c.Axes["leaf"] == "self/allOf-items" || c.Axes["leaf"] == "two-cycle/allOf" || c.Axes["leaf"] == "self/two-allOf-edges" || c.Axes["leaf"] == "self/two-bare-allOf-edges" {
 			acceptOnly = append(acceptOnly, c)
 		} else {
 			casesB = append(casesB, c)
@@ -277,6 +277,40 @@ func c10(ctx *Ctx) {
 	// the shape of the graph; judged here: generation terminates, the program compiles, and every VALID document of nesting depth 0..5 is accepted
 	runBehaviour(ctx, behaviour{Name: "recursion-allof-shapes", Cases: acceptOnly, Devs: c10Devs,
 		DocFilter: func(sc *SCase, d *refmodel.Doc, tv refmodel.Verdict) bool { return tv == refmodel.Accept },
+		// two recursive edges: the generic boundary-value enumeration multiplies per level and per edge; the documents are every tree
+		// over the two edges up to depth 3 (676 of them), each also judged by the model before it is used
+		DocGen: func(sc *SCase, m *refmodel.Model) []refmodel.Doc {
+			if sc.Axes["leaf"] != "self/two-allOf-edges" && sc.Axes["leaf"] != "self/two-bare-allOf-edges" {
+				return m.Docs(1)
+			}
+			var trees func(d int) []map[string]any
+			trees = func(d int) []map[string]any {
+				if d == 0 {
+					return []map[string]any{{"v": jsonv.MustParse("7")}}
+				}
+				sub := trees(d - 1)
+				var out []map[string]any
+				for i := -1; i < len(sub); i++ {
+					for j := -1; j < len(sub); j++ {
+						n := map[string]any{"v": jsonv.MustParse("7")}
+						if i >= 0 {
+							n["next"] = sub[i]
+						}
+						if j >= 0 {
+							n["prev"] = sub[j]
+						}
+						out = append(out, n)
+					}
+				}
+				return out
+			}
+			var docs []refmodel.Doc
+			for i, t := range trees(3) {
+				v := map[string]any{"t": t}
+				docs = append(docs, refmodel.Doc{V: v, Text: jsonv.Text(v), Class: fmt.Sprintf("tree-%d", i)})
+			}
+			return docs
+		},
 		OnGenErr: func(sc *SCase, msg string) {
 			ctx.Run.Violation("recursive-not-generated:"+sc.Axes["leaf"], fmt.Sprintf("%s: recursive schema: %s", sc.ID, firstLine(msg)), map[string]any{"kind": "gen", "files": sc.Case().Files, "args": sc.Case().Args, "cfg": sc.Case().Cfg})
 		},
@@ -387,6 +421,9 @@ func c10CasesB(level int) []SCase {
 	// recursion through allOf in the other shapes: through items, through a second definition, mixed with anyOf
 	add("self/allOf-items", false, J{"t": ref("T")}, J{"T": J{"type": "object", "properties": J{"v": in, "kids": J{"type": "array", "items": J{"allOf": A{ref("T")}}}}}})
 	add("two-cycle/allOf", false, J{"a": ref("A")}, J{"A": J{"type": "object", "properties": J{"x": in, "b": J{"allOf": A{ref("B")}}}}, "B": J{"type": "object", "properties": J{"y": str, "a": J{"allOf": A{ref("A")}}}}})
+	// two properties of one definition that both lead back to it through allOf
+	add("self/two-allOf-edges", false, J{"t": ref("T")}, J{"T": J{"type": "object", "properties": J{"v": in, "next": J{"allOf": A{ref("T"), J{"type": "object", "properties": J{"extra": str}}}}, "prev": J{"allOf": A{ref("T")}}}}})
+	add("self/two-bare-allOf-edges", false, J{"t": ref("T")}, J{"T": J{"type": "object", "properties": J{"v": in, "next": J{"allOf": A{ref("T")}}, "prev": J{"allOf": A{ref("T")}}}}})
 	// two array properties of one definition, each with items that are an anyOf back to the definition
 	leafObj := J{"type": "object", "properties": J{"s": str}, "required": A{"s"}}
 	add("self/two-anyOf-item-edges", false, J{"t": ref("T")}, J{"T": J{"type": "object", "properties": J{"l": J{"type": "array", "items": J{"anyOf": A{ref("T"), leafObj}}}, "r": J{"type": "array", "items": J{"anyOf": A{ref("T"), leafObj}}}}}})
